@@ -178,7 +178,11 @@ public:
 
     static inline const std::list<unsigned int> &step_list(unsigned int prec)
     {
+#ifdef WITH_SYMENGINE_THREAD_SAFE
+        static thread_local std::list<unsigned int> steps;
+#else
         static std::list<unsigned int> steps;
+#endif
         if (not steps.empty()) {
             if (*(steps.rbegin()) == prec)
                 return steps;
